@@ -273,13 +273,7 @@ func SplitAtIndex[T ~string](str T, index int) []T {
 		return []T{str, ""}
 	}
 
-	for idx := range str {
-		if idx == index {
-			result = append(result, append(result, str[:idx+1], str[idx+1:])...)
-		}
-	}
-
-	return result
+	return append(result, str[:index+1], str[index+1:])
 }
 
 // Wrap a string with the specified token.
